@@ -45,6 +45,7 @@ def make_cfg(rng: random.Random, profile: str = "c12") -> dict:
         "p_ws_aim": 0.5,
         "p_layout": rng.choice([0.0, 0.0, 0.3]),   # Fortran-ordered / transposed-view coordinate arrays
         "p_mag": rng.choice([0.0, 0.0, 0.0, 0.2]),   # coordinates of magnitude 1e5..1e7 or 1e-4..1e-2
+        "p_nonfinite": rng.choice([0.0, 0.0, 0.0, 0.0, 0.12]),   # inf / nan coordinates
         "p_poke": float(os.environ["GEOSIM_P_POKE"]) if os.environ.get("GEOSIM_P_POKE") else rng.choice([0.0, 0.05, 0.12]),   # the client edits a result it owns (Tensor.__setitem__)
     }
     warm = []
@@ -118,6 +119,11 @@ class PoolGen:
                 v[0] = 1
             return self.noisy(v)
         v = self.ivec(dim) + [1]
+        if rng.random() < self.cfg.get("p_nonfinite", 0.0):
+            # what `p / 0` or an overflowed computation upstream leaves in a coordinate array
+            v = [float(x) for x in v]
+            v[rng.randrange(dim + 1)] = rng.choice([float("inf"), float("-inf"), float("nan")])
+            return v
         if rng.random() < self.cfg.get("p_mag", 0.0):
             # survey / pixel / micro-scale coordinates: the library's tolerances are absolute (1e-8), its code paths
             # (normalisation, isclose, is_multiple) are not scale free
@@ -161,7 +167,7 @@ class PoolGen:
         how = "hom"
         vv = self.scaled(v)
         dt = self.dt()
-        if any(isinstance(x, float) and x != int(x) for x in vv) and dt in ("i", "i8", "i16", "i32"):
+        if any(_frac(x) for x in vv) and dt in ("i", "i8", "i16", "i32"):
             dt = "f"
         if vv is v and v[-1] == 1 and self.rng.random() < 0.4:
             how = "affine"
@@ -183,7 +189,7 @@ class PoolGen:
         if len(shape) == 2:
             arr = [rows[i * shape[1]:(i + 1) * shape[1]] for i in range(shape[0])]
         dt = self.dt()
-        if dt in ("i", "i8", "i16", "i32") and any(isinstance(x, float) and x != int(x) for r in rows for x in r):
+        if dt in ("i", "i8", "i16", "i32") and any(_frac(x) for r in rows for x in r):
             dt = "f"
         how = "from_array" if self.rng.random() < 0.3 else "ctor"
         return self.add("pointcoll", [arr], {"dt": dt, "how": how}, tag=f"pointcoll{dim}")
@@ -295,7 +301,7 @@ class PoolGen:
                         rows.append(self.ivec(d) + [1])
                     if not any(rows[-1]):
                         rows[-1][0] = 1
-                frac = any(isinstance(x, float) and x != int(x) for r_ in rows for x in r_)
+                frac = any(_frac(x) for r_ in rows for x in r_)
                 ln_ = len(self.recipes) - 1
                 pc_ = self.add("pointcoll", [rows], {"dt": "f" if frac or rng.random() < 0.6 else "i"},
                                tag=f"pointcoll{d}")
@@ -638,6 +644,11 @@ def _scenarios(self, d):
 
 
 PoolGen.scenarios = _scenarios
+
+
+def _frac(x) -> bool:
+    """a coordinate that an integer dtype cannot hold"""
+    return isinstance(x, float) and (not math.isfinite(x) or x != int(x))
 
 
 def _nested(rng, shape):
